@@ -755,3 +755,77 @@ Proof.
   intros Hn Hb S. apply forall2_sim_replace. intros s Hs E.
   assert (s = b); [|now subst]. eapply nodup_ids_eq; eauto. destruct S as (Eb & _). congruence.
 Qed.
+
+Ltac splits := repeat match goal with |- _ /\ _ => split end.
+
+(* ---------- the invariant between epochs ---------- *)
+(* genome id of the organism stored under key k (-1: no such organism) *)
+Definition gid_at (h : list organism) (k : Z) : Z :=
+  match hget h k with Ok x => ogid x | _ => -1 end.
+
+Record Part (p : population) : Prop := {
+  (* Population.Organisms lists no organism twice, and every listed key denotes an organism *)
+  part_orgs_nodup : NoDup (p_orgs p);
+  part_heap : forall k, In k (p_orgs p) -> exists x, hget (p_heap p) k = Ok x /\ o_key x = k;
+  (* species ids are unique and not above the LastSpecies counter; no species is empty *)
+  part_ids : NoDup (map sp_id (p_species p));
+  part_last : forall s, In s (p_species p) -> sp_id s <= p_last_species p;
+  part_nonempty : forall s, In s (p_species p) -> sp_orgs s <> [];
+  (* no organism is listed twice, neither within one species nor by two species *)
+  part_once : NoDup (members (p_species p));
+  (* species list only organisms of the population *)
+  part_incl : forall s k, In s (p_species p) -> In k (sp_orgs s) -> In k (p_orgs p);
+  (* the species an organism points to exists and lists it *)
+  part_back : forall k x, In k (p_orgs p) -> hget (p_heap p) k = Ok x ->
+              exists s, In s (p_species p) /\ sp_id s = o_species x /\ In k (sp_orgs s);
+  (* genome ids are unique *)
+  part_gids : NoDup (map (gid_at (p_heap p)) (p_orgs p));
+  (* fresh keys are fresh; no species is detached between epochs *)
+  part_bound : hbound (p_heap p) (p_next_key p);
+  part_detached : p_detached p = [] }.
+
+Lemma nodup_members_same l a b k :
+  NoDup (members l) -> In a l -> In b l -> In k (sp_orgs a) -> In k (sp_orgs b) -> a = b.
+Proof.
+  induction l as [|c l IH]; intros Hn Ha Hb Ka Kb; [contradiction|].
+  change (members (c :: l)) with (sp_orgs c ++ members l) in Hn.
+  apply nodup_app_inv in Hn. destruct Hn as (N1 & N2 & N3).
+  destruct Ha as [<-|Ha], Hb as [<-|Hb]; auto.
+  - exfalso. apply (N3 k); [assumption|]. apply members_in. eauto.
+  - exfalso. apply (N3 k); [assumption|]. apply members_in. eauto.
+Qed.
+
+Lemma Part_Wf p : Part p -> Wf (p_species p) (p_heap p) (fun k => In k (p_orgs p)).
+Proof.
+  intros [P1 P2 P3 P4 P5 P6 P7 P8 P9 P10 P11]. constructor; auto.
+  - intros s Hs. apply (nodup_concat_in (map sp_orgs (p_species p))); [exact P6|now apply in_map].
+  - intros s k Hs Hk. pose proof (P7 _ _ Hs Hk) as Ho. destruct (P2 _ Ho) as (x & Hx & _).
+    destruct (P8 _ _ Ho Hx) as (s' & Hs' & E & Hk'). unfold sp_of. rewrite (hview_get _ _ _ _ Hx). f_equal.
+    rewrite <- E. f_equal. eapply nodup_members_same; eauto.
+  - intros k Hk. destruct (P2 _ Hk) as (x & Hx & _). destruct (P8 _ _ Hk Hx) as (s & Hs & _ & Hi). eauto.
+Qed.
+
+Lemma Wf_Part p :
+  Wf (p_species p) (p_heap p) (fun k => In k (p_orgs p)) -> NoDup (p_orgs p) ->
+  (forall s, In s (p_species p) -> sp_id s <= p_last_species p) ->
+  (forall s, In s (p_species p) -> sp_orgs s <> []) ->
+  NoDup (map (gid_at (p_heap p)) (p_orgs p)) -> hbound (p_heap p) (p_next_key p) -> p_detached p = [] ->
+  Part p.
+Proof.
+  intros W Hn Hl He Hg Hb Hd. constructor; auto.
+  - intros k Hk. destruct (wf_cover _ _ _ W k Hk) as (s & Hs & Hi).
+    pose proof (wf_link _ _ _ W s k Hs Hi) as E. apply hview_some in E. destruct E as (x & Hx & _).
+    exists x. split; [assumption|]. eapply hget_key; eauto.
+  - eapply wf_ids; eauto.
+  - eapply Wf_members_nodup; eauto.
+  - intros s k Hs Hk. apply (wf_incl _ _ _ W s k Hs Hk).
+  - intros k x Hk Hx. destruct (wf_cover _ _ _ W k Hk) as (s & Hs & Hi). exists s. splits; auto.
+    pose proof (wf_link _ _ _ W s k Hs Hi) as E. unfold sp_of in E. rewrite (hview_get _ _ _ _ Hx) in E.
+    now injection E.
+Qed.
+
+Lemma gid_at_frame h h' k : hframe ogid h h' -> gid_at h' k = gid_at h k.
+Proof.
+  intros F. specialize (F k). unfold gid_at, hview in *.
+  destruct (hget h' k), (hget h k); try discriminate; try reflexivity. now injection F.
+Qed.
